@@ -692,14 +692,14 @@ class RotationImplemented(BaseAlignmentModel):
             _template = [_template]
         if _mask.ndim == 3:
             _mask = [_mask]
-        for i, (tmp, mask) in enumerate(zip(_template, _mask)):
-            # candidates are ordered as (rot0, temp0), (rot0, temp1), ...
-            quat = self.quaternions[i // self._n_templates]
+        for tmp, mask in zip(_template, _mask):
+            # NOTE: the orientation of the image (used for the missing wedge) does
+            # not depend on the candidate rotation of the template.
             pool.add_task(
                 self.pre_transform(img_input * mask, xp),
                 tmp,
                 max_shifts,
-                quat,
+                self._DUMMY_QUAT,
                 pos=pos,
                 backend=xp,
             )
